@@ -14,8 +14,12 @@ several names of ONE container see what was stored through any of them.
 statement may raise (`done = false`), leaving the state reached so far.  A read of an unbound variable has no
 execution other than `raise` (Python: `UnboundLocalError`); the translator never emits one (it checks definite
 assignment of its own output and fails closed).
+`kill xs` ends the scope of the locals of an inlined callee: they are unbound again (so a read of one of them afterwards
+has, again, no execution but `raise`; the translator's definite-assignment check treats `kill` as unbinding), which
+lets the analysis forget them.
 `ana` is the abstract interpretation (abstract objects: parameters and allocation sites; one abstract heap);
-`report` / `reportRet` are what the check consumes.
+`report` / `reportRet` are what the check consumes.  `history c ms` (below) is the program of all call histories on one
+object; `retProg` what a constructed object retains.
 -/
 namespace Pew.Effects
 
@@ -43,6 +47,9 @@ inductive Stmt where
   | skip | bind (x : Var) (s : Src) | write (x : Var) | ret (x : Var)
   /-- the object of `x` now holds, in slot `l`, a reference to the object of `y` -/
   | store (x : Var) (l : Lbl) (y : Var)
+  /-- the variables `xs` go out of scope (the locals of an inlined callee when it has returned): they are unbound
+      again, so a later read of one of them has no execution (like any read of an unbound variable) -/
+  | kill (xs : List Var)
   | seq (a b : Stmt) | branch (a b : Stmt) | loop (b : Stmt)
 deriving Repr
 
@@ -87,6 +94,7 @@ inductive Exec (np : Nat) : Stmt → St → Bool → St → Prop where
   | ret (x o σ) : σ.env x = some o → Exec np (.ret x) σ true { σ with returned := o :: σ.returned }
   | store (x l y o o' σ) : σ.env x = some o → σ.env y = some o' →
       Exec np (.store x l y) σ true { σ with heap := (o, l, o') :: σ.heap }
+  | kill (xs σ) : Exec np (.kill xs) σ true { σ with env := fun y => if xs.contains y then none else σ.env y }
   | seq (a b σ σ₁ d σ₂) : Exec np a σ true σ₁ → Exec np b σ₁ d σ₂ → Exec np (.seq a b) σ d σ₂
   | seqRaise (a b σ σ₁) : Exec np a σ false σ₁ → Exec np (.seq a b) σ false σ₁
   | branchL (a b σ d σ') : Exec np a σ d σ' → Exec np (.branch a b) σ d σ'
@@ -94,6 +102,39 @@ inductive Exec (np : Nat) : Stmt → St → Bool → St → Prop where
   | loopDone (b σ) : Exec np (.loop b) σ true σ
   | loopStep (b σ σ₁ d σ₂) : Exec np b σ true σ₁ → Exec np (.loop b) σ₁ d σ₂ → Exec np (.loop b) σ d σ₂
   | loopRaise (b σ σ₁) : Exec np b σ false σ₁ → Exec np (.loop b) σ false σ₁
+
+/-! ## call histories on one object
+
+A constructor that keeps (a reference to) a caller-owned container and a method that later writes into what the object
+holds is a violation no single call exhibits.  `history c ms` is the IR program whose executions are exactly the call
+histories `construct; m_{i1}; …; m_{ik}` (any length, any order, the last call possibly raising): `c` is the (inlined)
+constructor call binding the receiver variable from the parameters of the history, `ms` the (inlined) method calls on
+that receiver; the parameters of the history are the constructor's and the methods' own arguments, so a write to a
+parameter is a write to an object the CALLER passed, at construction or later. -/
+
+/-- nondeterministic choice among the statements -/
+def choice : List Stmt → Stmt
+  | [] => .skip
+  | m :: ms => .branch m (choice ms)
+
+/-- every history `c; m_{i1}; …; m_{ik}` -/
+def history (c : Stmt) (ms : List Stmt) : Stmt := .seq c (.loop (choice ms))
+
+/-- `c`, then return anything reachable from the object of variable `x` (through the temporary `t`): what the
+    object built by `c` retains -/
+def retProg (c : Stmt) (x t : Var) : Stmt := .seq c (.seq (.bind t (.reach [x])) (.ret t))
+
+/-- a sequence of calls of the method bodies `ms`, each starting in the state the previous one left: all of them
+    return, or the last one raises -/
+inductive Calls (np : Nat) (ms : List Stmt) : St → Bool → St → Prop where
+  | done (σ) : Calls np ms σ true σ
+  | call (m σ σ₁ d σ₂) : m ∈ ms → Exec np m σ true σ₁ → Calls np ms σ₁ d σ₂ → Calls np ms σ d σ₂
+  | raised (m σ σ₁) : m ∈ ms → Exec np m σ false σ₁ → Calls np ms σ false σ₁
+
+/-- a call history: the constructor raises, or it returns and calls follow -/
+inductive Hist (np : Nat) (c : Stmt) (ms : List Stmt) : St → Bool → St → Prop where
+  | ctorRaised (σ σ') : Exec np c σ false σ' → Hist np c ms σ false σ'
+  | calls (σ σ₁ d σ₂) : Exec np c σ true σ₁ → Calls np ms σ₁ d σ₂ → Hist np c ms σ d σ₂
 
 /-! ## abstract interpretation
 
@@ -122,13 +163,16 @@ def A.set (a : A) (x : Var) (ps : List Nat) : A :=
   { a with env := (x, ps.eraseDups) :: a.env.filter (fun p => p.1 != x) }
 def A.vars (a : A) : List Var := a.env.map (·.1)
 
+/-- `a` followed by the elements of `b` not in `a` (duplicate-free when both are) -/
+def unionL {α : Type} [BEq α] (a b : List α) : List α := a ++ b.filter (fun x => !a.contains x)
+
 def joinA (a b : A) : A :=
   { top := a.top || b.top
     env := (a.vars ++ b.vars).eraseDups.map (fun x => (x, (a.raw x ++ b.raw x).eraseDups))
-    heap := (a.heap ++ b.heap).eraseDups
-    alloc := (a.alloc ++ b.alloc).eraseDups
-    w := (a.w ++ b.w).eraseDups
-    r := (a.r ++ b.r).eraseDups }
+    heap := unionL a.heap b.heap
+    alloc := unionL a.alloc b.alloc
+    w := unionL a.w b.w
+    r := unionL a.r b.r }
 
 def leA (a b : A) : Bool :=
   b.top || (!a.top && a.vars.all (fun x => (a.raw x).all (fun p => (b.raw x).contains p))
@@ -149,22 +193,30 @@ def targets (h : List AEdge) (os : List Nat) (l : Lbl) : List Nat :=
 def succs (h : List AEdge) (os : List Nat) : List Nat :=
   h.filterMap (fun e => if os.contains e.1 then some e.2.2 else none)
 
+/-- rounds of `succs` until nothing is added (or the fuel runs out): a candidate closure, CHECKED by `closedB` where
+    it is used -/
 def closeN (h : List AEdge) : Nat → List Nat → List Nat
   | 0, os => os
-  | n + 1, os => closeN h n (os ++ succs h os).eraseDups
+  | n + 1, os =>
+    let os' := (os ++ succs h os).eraseDups
+    if os'.length ≤ os.length then os' else closeN h n os'
 
 /-- `os` is closed under the edges of `h` -/
 def closedB (h : List AEdge) (os : List Nat) : Bool :=
   h.all (fun e => !os.contains e.1 || os.contains e.2.2)
 
+/-- `k` added to a duplicate-free list (linear, where `(k :: l).eraseDups` is quadratic) -/
+def insertNat (k : Nat) (l : List Nat) : List Nat := if l.contains k then l else k :: l
+
 def ana (np : Nat) : Stmt → A → A
   | .skip, a => a
+  | .kill xs, a => { a with env := a.env.filter (fun p => !xs.contains p.1) }
   | .bind x (.param i), a => a.set x [i]
-  | .bind x (.fresh k), a => { a.set x [np + k] with alloc := ((np + k) :: a.alloc).eraseDups }
+  | .bind x (.fresh k), a => { a.set x [np + k] with alloc := insertNat (np + k) a.alloc }
   | .bind x (.alias ys), a => a.set x (ys.flatMap a.raw)
   | .bind x (.load ys l k), a =>
       let os := ys.flatMap a.raw
-      { a.set x ((np + k) :: (os.filter (· < np) ++ targets a.heap os l)) with alloc := ((np + k) :: a.alloc).eraseDups }
+      { a.set x ((np + k) :: (os.filter (· < np) ++ targets a.heap os l)) with alloc := insertNat (np + k) a.alloc }
   | .bind x (.reach ys), a =>
       let os := (ys.flatMap a.raw).eraseDups
       let c := closeN a.heap (a.heap.length + 1) os
